@@ -31,7 +31,10 @@ def le32 (n : Nat) : List Nat := [n % 256, n / 256 % 256, n / 65536 % 256, n / 1
 
 /-- A scripted hasher of the harness: `answers` maps a code to an answer kind. -/
 def scripted (S idx : Nat) (answers : List (Nat × Char)) : Hasher := fun code data =>
-  match (answers.find? (·.1 == code)).map (·.2) with
+  -- 'p': picky — refuses data starting with 0xee with a custom error, hashes everything else
+  let kind := (answers.find? (·.1 == code)).map (·.2)
+  let kind := if kind == some 'p' then (if data.head? == some 0xee then some 'c' else some 'o') else kind
+  match kind with
   | some 'o' =>
     let d := [idx % 256] ++ le32 (data.sum % 4294967296) ++ le32 (data.length % 4294967296)
     if d.length ≤ S then .ok { code := code, digest := d } else .size
